@@ -110,6 +110,14 @@ def to_value(t) -> Value:
         return TypedValue(type)
     if k == "baretuple":  # the bare alias typing.Tuple (any tuple), not Tuple[()]
         return TypedValue(tuple)
+    if k == "tdc":  # closed TypedDict {a: T}: no other key allowed (only used by pinned C04 pairs; no typing spelling)
+        from pyanalyze.value import NO_RETURN_VALUE
+
+        return TypedDictValue({"a": TypedDictEntry(to_value(t[1]))}, extra_keys=NO_RETURN_VALUE)
+    if k == "tdc2":  # closed TypedDict {a: T1, b: T2}
+        from pyanalyze.value import NO_RETURN_VALUE
+
+        return TypedDictValue({"a": TypedDictEntry(to_value(t[1])), "b": TypedDictEntry(to_value(t[2]))}, extra_keys=NO_RETURN_VALUE)
     if k == "cls":
         return TypedValue(CLASSES[t[1]])
     if k == "type":
@@ -259,6 +267,10 @@ def member(o, t) -> bool:
         return isinstance(o, type)
     if k == "baretuple":
         return isinstance(o, tuple)
+    if k == "tdc":
+        return isinstance(o, dict) and set(o) == {"a"} and member(o["a"], t[1])
+    if k == "tdc2":
+        return isinstance(o, dict) and set(o) == {"a", "b"} and member(o["a"], t[1]) and member(o["b"], t[2])
     if k == "cls":
         return isinstance(o, CLASSES[t[1]])
     if k == "type":
@@ -384,7 +396,7 @@ def _admits_str(t) -> bool:
 
 OBJECT_KINDS = ["int", "bool", "str", "none", "float", "tuple0", "tuple1", "tuple2", "tuple_is", "list0", "list1", "list2",
                 "dict0", "dict_a", "dict_ab", "dict_an", "dict_a2", "set1", "fset1", "bytes0", "bytes1", "enum", "instA", "instB", "clsA", "clsB", "clsint",
-                "fsub", "isub", "cplx", "flagR", "flagRW", "flag0", "clsstr"]
+                "fsub", "isub", "cplx", "flagR", "flagRW", "flag0", "clsstr", "dict_as"]
 
 
 def make_object(kind: str, oi, oj, s):
@@ -418,6 +430,8 @@ def make_object(kind: str, oi, oj, s):
         return {"a": oi}
     if kind == "dict_ab":
         return {"a": oi, "b": oj}
+    if kind == "dict_as":
+        return {"a": oi, "b": s}
     if kind == "dict_a2":  # a non-str key next to the declared one
         return {"a": oi, 2: oj}
     if kind == "dict_an":
@@ -657,6 +671,8 @@ def _compatible_kinds(tb) -> List[str]:
         return ["list0", "list1", "tuple1", "tuple2", "str", "bytes1", "set1", "fset1", "dict_a"]
     if k in ("td", "td2"):
         return ["dict0", "dict_a", "dict_ab", "dict_an", "dict_a2"]
+    if k in ("tdc", "tdc2"):
+        return ["dict_a", "dict_ab", "dict_as"]
     if k in ("minlen", "maxlen"):
         return _compatible_kinds(tb[2])
     return OBJECT_KINDS
@@ -723,6 +739,13 @@ def c04_cases(tier: str, seed: int) -> List[Case]:
             if (not quick) and (idx + seed) % 2 != 0 and not pinned:
                 continue
             for kind in kinds:
+                out.append(Case("h04_sound", f"s:{tname(a)}<-{tname(b)}|{kind}", {"A": a, "B": b, "okind": kind},
+                                timeout=60 if quick else 240, twin=True, vacuous_ok=True))
+    # closed TypedDicts (no typing spelling in the vocabulary: these pairs are listed by hand)
+    closed = [("tdc", ("int",)), ("tdc2", ("int",), ("str",)), ("tdc2", ("int",), ("int",)), ("td", F1, False, ("int",)), ("td2", ("int",), ("str",), F1)]
+    for a in closed[:3]:
+        for b in closed:
+            for kind in _compatible_kinds(b):
                 out.append(Case("h04_sound", f"s:{tname(a)}<-{tname(b)}|{kind}", {"A": a, "B": b, "okind": kind},
                                 timeout=60 if quick else 240, twin=True, vacuous_ok=True))
     return out
